@@ -75,6 +75,8 @@ def serve(lib_path):
                 os.close(r)
                 inp.close()
                 faulthandler.enable(file=sys.stderr)
+                from . import simfs
+                simfs.set_mount_for_this_process()
                 try:
                     res = jobs.run_job(job)
                 except BaseException as e:
@@ -112,6 +114,11 @@ def serve(lib_path):
             except ProcessLookupError:
                 pass
         _, status = os.waitpid(pid, 0)
+        try:
+            from . import simfs
+            simfs.cleanup(pid)
+        except Exception:
+            pass
         if timed_out:
             res = {'error': 'harness-timeout', 'timeout': timeout}
         elif not chunks:
